@@ -386,6 +386,29 @@ def check_append(rep: Report, ix, clf: Classifier) -> None:
             ok = v.shares and all(r.endswith(".data") for r in v.roots)
         if not ok:
             rep.violation("C20.append-forwards", f"{g.ref}::forward", f"append does not forward (<field>.data, time) to _append_data: `{ast.unparse(c)}`", line=c.lineno)
+        # a time stamp that was given is stored as given: the default may replace `None` only -- a truthiness test
+        # (`time or default`, `if not time`) also replaces the legitimate time 0.0
+        ex_t = expand(a_time, p, i) if a_time is not None else None
+        falsy = None
+        if ex_t is not None:
+            for x in ast.walk(ex_t):
+                if isinstance(x, ast.BoolOp) and any(isinstance(v_, ast.Name) and v_.id == gp[1] for v_ in x.values):
+                    falsy = ast.unparse(x)[:70]
+                if isinstance(x, ast.IfExp) and ((isinstance(x.test, ast.Name) and x.test.id == gp[1]) or (isinstance(x.test, ast.UnaryOp) and isinstance(x.test.operand, ast.Name) and x.test.operand.id == gp[1])):
+                    falsy = ast.unparse(x)[:70]
+        for t_, truth in p.decisions(0):
+            tt = t_.operand if isinstance(t_, ast.UnaryOp) and isinstance(t_.op, ast.Not) else t_
+            if isinstance(tt, ast.Name) and tt.id == gp[1]:
+                falsy = f"if {ast.unparse(t_)}"
+        rep.oblige(f"append: a given time stamp is stored as given (default replaces None only), path {n}", falsy is None, falsy)
+        if falsy:
+            rep.violation(
+                "C20.append-forwards",
+                f"{g.ref}::time-default",
+                f"the time stamp is chosen by the truth value of `{gp[1]}` (`{falsy}`): a frame appended at time 0 (0.0 is falsy) is stored under the default `last time + 1` instead of 0, "
+                "so the stored times no longer are the times of the appended pairs",
+                line=c.lineno,
+            )
     rep.floor("forwarding paths of StorageBase.append", n, 1)
 
 
